@@ -7,6 +7,7 @@ from ..gen import maps as M
 from ..translate import labelfns as tr
 from ..translate import arith2
 from . import c09_keyopts
+from . import c09_twoform
 from ..translate import hashmapsrc as hmsrc
 from ..translate import hashmapglue as hmglue
 
@@ -49,6 +50,10 @@ SPEC = dict(
          'sets x 4 orders (all orders thorough), width 4 sampled key sets (all 65535 thorough), widths 5..1023 prefix-sharing patterns; key forms '
          'int/bytes/bit string/Address(267)/hashed string; invalid keys (negative, >= 2^n, over-long bytes, empty bit string); each case goes through '
          'serialize, HashMap.parse, from_cell, store_dict+load_dict/preload_dict/load_hashmap and the Lean model; distinct = distinct case; '
+         'keys well-formed in TWO key forms at once (c09_twoform.py, gen/twoform.py), constructed not sampled: 48-character numerals in every spelling int(s, 2) '
+         'admits (plain, +, -, blanks, underscore, 0b) and hex-/digit-looking texts that base64-decode to 34 bytes + their CRC-16 (GF(2) elimination on the free bits), '
+         'wc:hex raw-address texts in binary / decimal / hex digits, friendly address texts; as str keys, as hashed texts and as bytes keys (ASCII, the 36 / 34 / 33 / 32 '
+         'decoded bytes) at the widths around their value: filed under the declared reading only; '
          'non-trivial = at least one accepted key',
     trusted_base=['Model/Hashmap.lean mirrors hashmap.py / utils.py / parse.py by hand; Generated/LabelFns.lean is translated from utils.py each run',
                   'harness/translate/labelfns.py (Python subset -> Lean)', 'value serialisers modelled as "append these bits/refs"',
@@ -400,6 +405,7 @@ def run(ctx):
     odd_key_types(ctx)
     c09_keyopts.key_options(ctx)        # keys through the key_serializer= / key_deserializer= options
     c09_keyopts.string_key_spellings(ctx)   # every spelling int(s, 2) admits: sign, blanks, underscores, 0b
+    c09_twoform.two_form_keys(ctx, run_case)    # keys well-formed in two key forms at once: filed under the declared reading only
     # --- widths 1..3 exhaustive over key sets; insertion orders: all (w<=2, and w=3 in thorough) or 4 per set
     for n in (1, 2, 3):
         universe = list(range(1 << n))
@@ -527,7 +533,9 @@ def odd_key_types(ctx):
 
 def replay(ctx, payload):
     inp = payload.get('input') or {}
-    if 'ins' in inp:
+    if inp.get('kind') == 'twoform':
+        c09_twoform.replay_case(ctx, inp)
+    elif 'ins' in inp:
         run_case(ctx, inp['n'], inp['vkind'], [tuple(x) for x in inp['ins']], [(k, b, tuple(r)) for k, b, r in inp.get('base', [])],
                  inp.get('tag', 'replay'))
     elif 'key_serializer' in inp or 'history' in inp:
